@@ -273,9 +273,11 @@ class SchemaGen:
             branches.append({"type": "string", "enum": names[:k]})
             names = names[k:]
         closed = self.chance(0.5)
-        payloads = [self.schema(d + 1) for _ in names[:n]]
-        if any(isinstance(p, dict) and "allOf" in p for p in payloads):
-            closed = False  # merged allOf payloads are open structs
+        # (avoid_known) a {type:null} payload is the recorded finding KF-C03-1
+        payloads = [self.schema(d + 1, no_null=self.avoid) for _ in names[:n]]
+        if any(isinstance(p, dict) and ("allOf" in p or isinstance(p.get("additionalProperties"), dict))
+               for p in payloads):
+            closed = False  # merged allOf payloads / typed extra maps are open structs
         for nm, payload in zip(names[:n], payloads):
             if self.avoid:
                 payload = self.uniform_closed(payload, closed)
